@@ -369,6 +369,12 @@ func (g *gate) allBlocked() (bool, []string) {
 	defer g.mu.Unlock()
 	ok := true
 	var blockedClients []string
+	// every goroutine of the library (registered or not: in free-running mode none is) must be blocked
+	for _, gi := range gs {
+		if libKind(gi.stack) != "" && !blockedState(gi.state) {
+			ok = false
+		}
+	}
 	for _, p := range g.order {
 		if p.at != "" {
 			continue
